@@ -21,18 +21,21 @@ Definition present (ar : arena) (k : key) : Prop :=
 (** the payload the audio thread has removed from the arena and not yet pushed to the unused-ring *)
 Definition infl (o : option nat) : list nat := match o with Some p => [p] | None => [] end.
 
-(** slots that are not free, by owner: occupied in the arena, travelling in the new-queue, reserved *)
-Definition owned (s : state) : list nat := aorder (st_ar s) ++ nq_idx (st_newq s) ++ gres (st_g s).
+(** slots that are not free, by owner: occupied in the arena, travelling in the new-queue, reserved by
+    the creation in progress — and [lk]: reserved by a creation that was abandoned after [try_reserve]
+    (extension at the end of Model.v; [lk = []] in the base system) *)
+Definition owned (s : state) (lk : list nat) : list nat :=
+  aorder (st_ar s) ++ nq_idx (st_newq s) ++ gres (st_g s) ++ lk.
 
-Record Inv (cf : cfg) (s : state) : Prop := {
+Record InvL (cf : cfg) (s : state) (lk : list nat) : Prop := {
   i_clen : length (cslots (st_ctl s)) = cap cf;
   i_alen : length (aslots (st_ar s)) = cap cf;
   i_free : 1 <= cap cf ->
            exists fl, chain (cslots (st_ctl s)) (chead (st_ctl s)) fl /\ NoDup fl /\
                       (forall i, In i fl <-> i < cap cf /\ cfree (cs s i) = true);
   i_gen : forall i, i < cap cf -> agen (asl s i) = cgen (cs s i);
-  i_part : NoDup (owned s);
-  i_nonfree : forall i, In i (owned s) <-> i < cap cf /\ cfree (cs s i) = false;
+  i_part : NoDup (owned s lk);
+  i_nonfree : forall i, In i (owned s lk) <-> i < cap cf /\ cfree (cs s i) = false;
   i_occ : forall i, i < cap cf -> (In i (aorder (st_ar s)) <-> adata (asl s i) <> None);
   i_nqgen : forall k p, In (k, p) (st_newq s) -> kgen k = cgen (cs s (kidx k));
   i_ggen : forall k, gkey (st_g s) = Some k -> kgen k = cgen (cs s (kidx k));
@@ -54,13 +57,16 @@ Record Inv (cf : cfg) (s : state) : Prop := {
   i_cons : Permutation (seq 0 (st_next s))
              (map snd (st_newq s) ++ slot_payloads (aslots (st_ar s))
                   ++ (st_unused s ++ infl (st_inflight s)) ++ map fst (st_destroyed s));
-  i_counts : st_created s = st_removed s + length (owned s)
+  i_counts : st_created s = st_removed s + length (owned s lk)
 }.
 
 (** the bound that keeps the unused-ring (capacity + 1 slots) from overflowing: payloads waiting to be
     dropped + the one in flight + occupied + queued (+ 1 between the drain's empty observation and
     the push) never exceed capacity + 1.  The "+ 1" is the payload whose slot the audio thread has
     already freed when the gameplay thread's drain looks at the ring (finding F27). *)
+(** the base system: nothing has leaked *)
+Definition Inv (cf : cfg) (s : state) : Prop := InvL cf s [].
+
 Definition QInv (cf : cfg) (s : state) : Prop :=
   length (st_unused s) + length (infl (st_inflight s)) + length (aorder (st_ar s))
   + length (st_newq s) + rprime (st_g s) <= S (cap cf).
@@ -90,7 +96,7 @@ Lemma slot_payloads_repeat g n : slot_payloads (repeat (mkA None g) n) = [].
 Proof. induction n; cbn; auto. Qed.
 
 (** ** initial state *)
-Lemma inv_init cf : Inv cf (init cf).
+Lemma inv_init cf : InvL cf (init cf) [].
 Proof.
   constructor; unfold init; sproj; cbn [arena_new aslots aorder nq_idx map app length].
   - unfold ctl_new; cbn. now rewrite map_length, seq_length.
@@ -128,7 +134,10 @@ Proof. rewrite !app_assoc. apply Permutation_middle. Qed.
 Lemma perm_ins3 {A} (x : A) a b c : Permutation (x :: a ++ b ++ c) (a ++ b ++ x :: c).
 Proof. rewrite !app_assoc. apply Permutation_middle. Qed.
 
-Lemma inv_reject cf s : Inv cf s -> Inv cf (reject_payload s).
+Lemma in_ins3 {A} (x i : A) a b c : In i (a ++ b ++ x :: c) <-> x = i \/ In i (a ++ b ++ c).
+Proof. rewrite !in_app_iff. cbn. tauto. Qed.
+
+Lemma inv_reject cf s {lk} : InvL cf s lk -> InvL cf (reject_payload s) lk.
 Proof.
   intros [ ]. constructor; sproj; auto.
   - intros p k H. specialize (i_log_lt0 p k H). lia.
@@ -137,28 +146,28 @@ Proof.
     rewrite <- perm_ins4, <- Permutation_cons_append. now constructor.
 Qed.
 
-Lemma inv_g_reserve cf s s' : Inv cf s -> g_reserve cf s = Ok s' -> Inv cf s'.
+Lemma inv_g_reserve cf s s' {lk} : InvL cf s lk -> g_reserve cf s = Ok s' -> InvL cf s' lk.
 Proof.
   intros I H. unfold g_reserve in H.
   destruct (st_g s) eqn:Eg; try (inversion H; subst; exact I).
   unfold res_try_reserve, ctl_capacity in H.
   destruct (length (cslots (st_ctl s)) =? 0) eqn:Ez; cbn [obind] in H.
   { inversion H; subst. destruct (prebuild cf); [|exact I]. now apply inv_reject. }
-  apply Nat.eqb_neq in Ez. rewrite (i_clen _ _ I) in Ez.
+  apply Nat.eqb_neq in Ez. rewrite (i_clen _ _ _ I) in Ez.
   unfold ctl_try_reserve in H.
   destruct (chead (st_ctl s)) as [h|] eqn:Eh; cbn in H.
   2:{ inversion H; subst. destruct (prebuild cf); [|exact I]. now apply inv_reject. }
   destruct (nth_error (cslots (st_ctl s)) h) as [sl|] eqn:En; cbn in H; [|discriminate].
   inversion H; subst; clear H.
   apply (nth_error_nth_d _ _ _ dC) in En as [Hh Esl].
-  destruct I. sproj. rewrite Eg in *. sproj.
+  destruct I. sproj. rewrite Eg in *. sproj. cbn [app] in *.
   destruct (i_free0 ltac:(lia)) as (fl & Hch & Hnd & Hfl).
   destruct fl as [|h' r]; cbn [chain] in Hch; [congruence|].
   destruct Hch as (Eh' & _ & Hch). rewrite Eh in Eh'. inversion Eh'; subst h'. clear Eh'.
   inversion Hnd as [|? ? Hhr Hndr]; subst.
   assert (Hhfree : h < cap cf /\ cfree (cs s h) = true) by (apply Hfl; now left).
   destruct Hhfree as [Hhc Hhfree].
-  assert (Hhown : ~ In h (aorder (st_ar s) ++ nq_idx (st_newq s) ++ [])).
+  assert (Hhown : ~ In h (aorder (st_ar s) ++ nq_idx (st_newq s) ++ lk)).
   { intro Hin. apply i_nonfree0 in Hin as [_ Hin]. congruence. }
   assert (Hnth : forall i, i <> h -> nth i (upd (cslots (st_ctl s)) h
                    (mkC false (cgen (cs s h)) (cnext (cs s h)))) dC = cs s i).
@@ -177,11 +186,8 @@ Proof.
   - intros i Hi. destruct (Nat.eq_dec i h) as [->|Hne].
     + rewrite Hnthh. cbn. auto.
     + rewrite Hnth by auto. auto.
-  - rewrite app_nil_r in *. rewrite app_assoc. apply NoDup_app_iff. split; [|split].
-    + exact i_part0.
-    + constructor; [intros []|constructor].
-    + intros x Hx [<-|[]]. now apply Hhown.
-  - intro i. rewrite app_nil_r in *. rewrite app_assoc, in_app_iff.
+  - eapply Permutation_NoDup; [apply perm_ins3|]. now constructor.
+  - intro i. cbn [app]. rewrite in_ins3.
     destruct (Nat.eq_dec i h) as [->|Hne].
     + rewrite Hnthh. cbn. intuition.
     + rewrite Hnth by auto. rewrite i_nonfree0. cbn. intuition congruence.
@@ -200,7 +206,7 @@ Proof.
   - rewrite i_counts0, !app_length. cbn. lia.
 Qed.
 
-Lemma inv_g_drain_one cf s s' : Inv cf s -> g_drain_one s = Ok s' -> Inv cf s'.
+Lemma inv_g_drain_one cf s s' {lk} : InvL cf s lk -> g_drain_one s = Ok s' -> InvL cf s' lk.
 Proof.
   intros I H. unfold g_drain_one in H.
   destruct (st_g s) eqn:Eg; try (inversion H; subst; exact I).
@@ -212,12 +218,12 @@ Proof.
     rewrite <- perm_ins3, <- perm_ins4. reflexivity.
 Qed.
 
-Lemma owned_bound cf s : Inv cf s -> length (owned s) <= cap cf.
+Lemma owned_bound cf s {lk} : InvL cf s lk -> length (owned s lk) <= cap cf.
 Proof.
   intros [ ]. apply NoDup_bound; auto. intros x Hx. now apply i_nonfree0 in Hx.
 Qed.
 
-Lemma inv_g_drain_done cf s s' : Inv cf s -> g_drain_done s = Ok s' -> Inv cf s'.
+Lemma inv_g_drain_done cf s s' {lk} : InvL cf s lk -> g_drain_done s = Ok s' -> InvL cf s' lk.
 Proof.
   intros I H. unfold g_drain_done in H.
   destruct (st_g s) eqn:Eg; try (inversion H; subst; exact I).
@@ -226,23 +232,24 @@ Proof.
   constructor; sproj; auto.
 Qed.
 
-Lemma inv_g_mark cf p s s' : Inv cf s -> g_mark p s = Ok s' -> Inv cf s'.
+Lemma inv_g_mark cf p s s' {lk} : InvL cf s lk -> g_mark p s = Ok s' -> InvL cf s' lk.
 Proof.
   intros I H. unfold g_mark in H.
   destruct ((p <? st_next s) && negb (is_marked s p)); inversion H; subst; try exact I.
   destruct I. constructor; sproj; auto.
 Qed.
 
-Lemma inv_g_push cf s s' : Inv cf s -> g_push cf s = Ok s' -> Inv cf s'.
+Lemma inv_g_push cf s s' {lk} : InvL cf s lk -> g_push cf s = Ok s' -> InvL cf s' lk.
 Proof.
   intros I H. unfold g_push in H.
   destruct (st_g s) eqn:Eg; try (inversion H; subst; exact I).
   unfold ring_push, ring_is_full in H.
   destruct (cap cf <=? length (st_newq s)) eqn:Efull; [discriminate|].
   inversion H; subst; clear H.
-  destruct I. sproj. rewrite Eg in *. sproj.
-  assert (Hk : In (kidx k) (aorder (st_ar s) ++ nq_idx (st_newq s) ++ [kidx k])).
+  destruct I. sproj. rewrite Eg in *. sproj. cbn [app] in *.
+  assert (Hk : In (kidx k) (aorder (st_ar s) ++ nq_idx (st_newq s) ++ kidx k :: lk)).
   { rewrite !in_app_iff. right. right. now left. }
+  pose proof i_part0 as Hpart0.
   pose proof Hk as Hk'. apply i_nonfree0 in Hk' as [Hkc Hknf].
   assert (Hgen : kgen k = cgen (cs s (kidx k))) by now apply i_ggen0.
   assert (Hnq : nq_idx (st_newq s ++ [(k, st_next s)]) = nq_idx (st_newq s) ++ [kidx k]).
@@ -253,9 +260,8 @@ Proof.
   assert (Hkocc : ~ In (kidx k) (aorder (st_ar s))).
   { intro Hin. apply (ND3 _ Hin). rewrite in_app_iff. right. now left. }
   constructor; sproj; auto.
-  - rewrite Hnq, app_nil_r. apply NoDup_app_iff. split; [|split]; auto.
-    + apply NoDup_app_iff. split; [|split]; auto. constructor; [intros []|constructor].
-  - intro i. rewrite Hnq, app_nil_r. apply i_nonfree0.
+  - rewrite Hnq. cbn [app]. rewrite <- app_assoc. cbn [app]. exact Hpart0.
+  - intro i. rewrite Hnq. cbn [app]. rewrite <- app_assoc. cbn [app]. apply i_nonfree0.
   - intros k' p' Hin. apply in_app_iff in Hin as [Hin|[E|[]]]; [eauto|]. now inversion E; subst.
   - discriminate.
   - intros p' k' [E|Hin].
@@ -276,10 +282,10 @@ Proof.
   - rewrite seq_S, map_app. cbn [map snd plus].
     rewrite <- (app_assoc (map snd (st_newq s))). cbn [app]. rewrite <- Permutation_cons_append.
     rewrite <- (Permutation_middle (map snd (st_newq s))). now constructor.
-  - rewrite Hnq, app_nil_r. auto.
+  - rewrite Hnq. cbn [app]. rewrite <- app_assoc. cbn [app]. auto.
 Qed.
 
-Lemma inv_g_fail cf built s s' : Inv cf s -> g_fail cf built s = Ok s' -> Inv cf s'.
+Lemma inv_g_fail cf built s s' {lk} : InvL cf s lk -> g_fail cf built s = Ok s' -> InvL cf s' lk.
 Proof.
   intros I H. unfold g_fail in H.
   destruct (st_g s); inversion H; subst; try exact I.
@@ -298,19 +304,19 @@ Qed.
 Lemma arena_keys_idx ar : map kidx (arena_keys ar) = aorder ar.
 Proof. unfold arena_keys. rewrite map_map. cbn. apply map_id. Qed.
 
-Lemma inv_set_a cf s a :
-  Inv cf s ->
+Lemma inv_set_a cf s a {lk} :
+  InvL cf s lk ->
   (forall cur, a = ARemoving cur ->
                NoDup (map kidx cur) /\ (forall k, In k cur -> present (st_ar s) k)) ->
-  Inv cf (set_a s a).
+  InvL cf (set_a s a) lk.
 Proof. intros [ ] H. constructor; sproj; auto. Qed.
 
-Lemma inv_a_start cf s s' : Inv cf s -> a_start cf s = Ok s' -> Inv cf s'.
+Lemma inv_a_start cf s s' {lk} : InvL cf s lk -> a_start cf s = Ok s' -> InvL cf s' lk.
 Proof.
   intros I H. unfold a_start in H.
   destruct (st_a s) eqn:Ea; inversion H; subst; try exact I. clear H.
   apply inv_set_a; auto. intros cur E. inversion E; subst; clear E.
-  pose proof (i_keys _ _ I) as Hk. pose proof (i_part _ _ I) as Hp.
+  pose proof (i_keys _ _ _ I) as Hk. pose proof (i_part _ _ _ I) as Hp.
   destruct (selfref cf).
   - destruct Hk as [H1 H2]. split; auto. intros k Hin. now apply H2.
   - split.
@@ -335,7 +341,7 @@ Proof.
   symmetry. apply perm_ins3.
 Qed.
 
-Lemma inv_a_remove cf s s' : Inv cf s -> a_remove cf s = Ok s' -> Inv cf s'.
+Lemma inv_a_remove cf s s' {lk} : InvL cf s lk -> a_remove cf s = Ok s' -> InvL cf s' lk.
 Proof.
   intros I H. unfold a_remove in H.
   destruct (st_a s) as [|cur|] eqn:Ea; try (inversion H; subst; exact I).
@@ -344,16 +350,16 @@ Proof.
   { inversion H; subst. apply inv_set_a; auto. discriminate. }
   destruct (selfref cf && ring_is_full (unused_cap cf) (st_unused s)) eqn:Efull.
   { inversion H; subst. apply inv_set_a; auto. discriminate. }
-  pose proof (i_cur _ _ I _ Ea) as [NDcur Hcur].
+  pose proof (i_cur _ _ _ I _ Ea) as [NDcur Hcur].
   assert (Hpk : present (st_ar s) k) by (apply Hcur; now left).
   destruct Hpk as [Hocc Hgen].
-  assert (Hown : In (kidx k) (owned s)) by (unfold owned; rewrite in_app_iff; now left).
-  pose proof Hown as Hnf. apply (i_nonfree _ _ I) in Hnf as [Hidx Hnf].
-  pose proof (i_clen _ _ I) as Hcl. pose proof (i_alen _ _ I) as Hal.
+  assert (Hown : In (kidx k) (owned s lk)) by (unfold owned; rewrite in_app_iff; now left).
+  pose proof Hown as Hnf. apply (i_nonfree _ _ _ I) in Hnf as [Hidx Hnf].
+  pose proof (i_clen _ _ _ I) as Hcl. pose proof (i_alen _ _ _ I) as Hal.
   unfold arena_get in H. rewrite (nth_error_lt _ _ dA) in H by lia.
   rewrite <- Hgen, Nat.eqb_refl in H. cbn [obind] in H.
   destruct (adata (asl s (kidx k))) as [p|] eqn:Ed.
-  2:{ exfalso. apply (i_occ _ _ I) in Hocc; auto. }
+  2:{ exfalso. apply (i_occ _ _ _ I) in Hocc; auto. }
   cbn [map kidx] in NDcur. inversion NDcur as [|? ? Hkrest NDrest]; subst.
   destruct (is_marked s p) eqn:Em.
   2:{ inversion H; subst. apply inv_set_a; auto. intros cur E. inversion E; subst.
@@ -363,7 +369,7 @@ Proof.
   rewrite <- Hgen, Nat.eqb_refl, Ed in H.
   rewrite (nth_error_lt _ _ dC) in H by lia.
   cbn [obind] in H.
-  pose proof (i_part _ _ I) as Hpart. unfold owned in Hpart.
+  pose proof (i_part _ _ _ I) as Hpart. unfold owned in Hpart.
   apply NoDup_app_iff in Hpart as (NDocc & NDrest' & Hdisj).
   pose proof (remove_length_NoDup _ _ NDocc Hocc) as Hlen.
   rewrite Hgen in H. inversion H; subst; clear H.
@@ -382,7 +388,7 @@ Proof.
   assert (HAi : nth idx (upd (aslots (st_ar s)) idx (mkA None (S (agen (asl s idx))))) dA
                 = mkA None (S (agen (asl s idx)))).
   { apply nth_upd_eq. lia. }
-  assert (Hnotrest : ~ In idx (nq_idx (st_newq s) ++ gres (st_g s))) by (now apply Hdisj).
+  assert (Hnotrest : ~ In idx (nq_idx (st_newq s) ++ gres (st_g s) ++ lk)) by (now apply Hdisj).
   destruct I. sproj.
   constructor; sproj; auto.
   - now rewrite upd_length.
@@ -444,7 +450,7 @@ Proof.
   - rewrite i_counts0, !app_length. rewrite !app_length in *. lia.
 Qed.
 
-Lemma inv_a_push cf s s' : Inv cf s -> a_push cf s = Ok s' -> Inv cf s'.
+Lemma inv_a_push cf s s' {lk} : InvL cf s lk -> a_push cf s = Ok s' -> InvL cf s' lk.
 Proof.
   intros I H. unfold a_push in H.
   destruct (st_inflight s) as [p|] eqn:Ef; [|inversion H; subst; exact I].
@@ -455,28 +461,28 @@ Proof.
   cbn [infl] in *. now rewrite app_nil_r.
 Qed.
 
-Lemma inv_a_add cf s s' : Inv cf s -> a_add cf s = Ok s' -> Inv cf s'.
+Lemma inv_a_add cf s s' {lk} : InvL cf s lk -> a_add cf s = Ok s' -> InvL cf s' lk.
 Proof.
   intros I H. unfold a_add in H.
   destruct (st_a s) eqn:Ea; try (inversion H; subst; exact I).
   destruct (st_newq s) as [|[k p] rest] eqn:Eq.
   { inversion H; subst; clear H. destruct I. sproj. rewrite Eq in *. constructor; sproj; auto. discriminate. }
-  pose proof (i_clen _ _ I) as Hcl. pose proof (i_alen _ _ I) as Hal.
-  pose proof (i_part _ _ I) as Hpart. unfold owned in Hpart. rewrite Eq in Hpart.
+  pose proof (i_clen _ _ _ I) as Hcl. pose proof (i_alen _ _ _ I) as Hal.
+  pose proof (i_part _ _ _ I) as Hpart. unfold owned in Hpart. rewrite Eq in Hpart.
   cbn [nq_idx map fst] in Hpart. fold (nq_idx rest) in Hpart.
-  assert (Hperm : Permutation (kidx k :: aorder (st_ar s) ++ nq_idx rest ++ gres (st_g s))
-                              (aorder (st_ar s) ++ kidx k :: nq_idx rest ++ gres (st_g s)))
+  assert (Hperm : Permutation (kidx k :: aorder (st_ar s) ++ nq_idx rest ++ gres (st_g s) ++ lk)
+                              (aorder (st_ar s) ++ kidx k :: nq_idx rest ++ gres (st_g s) ++ lk))
     by apply Permutation_middle.
-  assert (Hown : In (kidx k) (owned s)).
+  assert (Hown : In (kidx k) (owned s lk)).
   { unfold owned. rewrite Eq. cbn [nq_idx map fst]. rewrite !in_app_iff. right. left. now left. }
-  pose proof Hown as Hnf. apply (i_nonfree _ _ I) in Hnf as [Hidx Hnf].
+  pose proof Hown as Hnf. apply (i_nonfree _ _ _ I) in Hnf as [Hidx Hnf].
   assert (Hgen : kgen k = agen (asl s (kidx k))).
-  { rewrite (i_gen _ _ I) by auto. apply (i_nqgen _ _ I k p). rewrite Eq. now left. }
+  { rewrite (i_gen _ _ _ I) by auto. apply (i_nqgen _ _ _ I k p). rewrite Eq. now left. }
   assert (Hnocc : ~ In (kidx k) (aorder (st_ar s))).
   { intro Hin. apply NoDup_app_iff in Hpart as (_ & _ & Hd). apply (Hd _ Hin). now left. }
   assert (Hd : adata (asl s (kidx k)) = None).
   { destruct (adata (asl s (kidx k))) eqn:E; auto. exfalso. apply Hnocc.
-    apply (i_occ _ _ I); auto. congruence. }
+    apply (i_occ _ _ _ I); auto. congruence. }
   unfold arena_insert_with_key in H. rewrite (nth_error_lt _ _ dA) in H by lia.
   rewrite <- Hgen, Nat.eqb_refl, Hd in H. cbn [negb] in H.
   rewrite Hgen in H. inversion H; subst; clear H.
@@ -533,7 +539,7 @@ Proof.
 Qed.
 
 (** ** every step preserves the invariant; no step panics *)
-Theorem inv_step cf l s s' : Inv cf s -> step cf l s = Ok s' -> Inv cf s'.
+Theorem inv_step cf l s s' {lk} : InvL cf s lk -> step cf l s = Ok s' -> InvL cf s' lk.
 Proof.
   destruct l; cbn [step]; intros I H.
   - eapply inv_g_reserve; eauto.
